@@ -7,6 +7,7 @@ import DlmsVerif.Run.Crc
 import DlmsVerif.Run.Fields
 import DlmsVerif.Run.Link
 import DlmsVerif.Run.Addr
+import DlmsVerif.Run.Hdlc
 
 structure DriverState where
   link : Run.Link.S := {}
@@ -15,6 +16,7 @@ def step (st : DriverState) (line : String) : DriverState × String :=
   match (line.trimAscii.toString.splitOn " ").filter (· ≠ "") with
   | "crc" :: rest => (st, Run.Crc.handle rest)
   | "fld" :: rest => (st, Run.Fields.handle rest)
+  | "hdlc" :: rest => (st, Run.Hdlc.handle rest)
   | "addr" :: rest => (st, Run.Addr.handle rest)
   | "link" :: rest => let (l, r) := Run.Link.handle st.link rest; ({ st with link := l }, r)
   | [] => (st, "bad-op")
